@@ -72,7 +72,9 @@ def harness_cfg(d, p):
         json.dump({"algo": p["algo"], "shards": p["shards"],
                    "hash": {str(k): v for k, v in p["hash"].items()},
                    "cfg": {k: v for k, v in p["cfg"].items() if k != "decay"},
-                   "reentrant": bool(p.get("reentrant", False))}, f)
+                   "reentrant": bool(p.get("reentrant", False)),
+                   "lookup_via_fetch": bool(p.get("lookup_via_fetch", False)),
+                   "shadow_no_listener": bool(p.get("shadow_no_listener", False))}, f)
     return path
 
 
